@@ -681,6 +681,13 @@ class Interp:
                         v = self.ev(ast.BinOp(left=st.target, op=st.op, right=st.value))
                         self._store(st.target, v)
                         continue
+                    if isinstance(cur, list) and isinstance(st.op, ast.Add) and rhs is not UNKNOWN:
+                        # obj.items += [..] extends in place; `self.submodules += module` (Migen collections) appends one element
+                        if isinstance(rhs, (list, tuple)):
+                            cur.extend(rhs)
+                        else:
+                            cur.append(rhs)
+                        continue
                     obj = self.ev(st.target.value) if isinstance(st.target, ast.Attribute) else UNKNOWN
                     if isinstance(obj, NS):
                         if st.target.attr not in obj.frozen:
